@@ -223,6 +223,140 @@ def linear_equality(rng, vocab):
     return ("=", ("+", a, b), right)
 
 
+# ------------------------------------------------------------------ equality shapes around the elimination decision
+# Which equalities of a conjunction become assumptions (and what is substituted for what) is decided by
+# NumericalExpressionTree.extract_eliminated_expressions from the SHAPE of the equality: the operator of the left side, what
+# its first operand is, whether the right side is the number zero.  The grid below varies exactly these, next to
+# inequalities in which the eliminated operand occurs alone / inside the very sum or difference of the equality / not at all.
+EQ_SHAPES = ("add", "sub", "rev-add", "rev-sub", "plain", "scaled", "num-first-add", "num-first-sub", "mul-left", "nested-sub")
+EQ_RIGHTS = ("zero", "zero-float", "neg-zero", "small", "large", "fluent")
+EQ_COMPANIONS = ("alone", "same-pattern", "other-pattern", "swapped", "absent", "second-alone")
+RIGHT_TEXTS = {"zero": ["0"], "zero-float": ["0.0", "0.00"], "neg-zero": ["-0.0", "-0"],
+               "small": ["1", "2", "-3", "0.5", "2.5", "-1.25", "0.004", "0.00001", "4.99999"],
+               "large": ["100000", "8823", "-250000", "123456.789", "3657.14", "99999.99999"]}
+
+
+def shaped_equality(rng, vocab, shape=None, right=None):
+    """(equality, A, B, shape, right, op): A is the first operand of the equality's sum / difference (what the library would
+    eliminate), B the second.  vocab needs >= 2 fluents."""
+    shape = shape or rng.choice(EQ_SHAPES)
+    right = right or rng.choice(EQ_RIGHTS)
+    fa, fb = rng.sample(vocab, 2)
+    a, b = ("fl", fa), ("fl", fb)
+    r = rng.random()
+    if r < 0.25:
+        a = ("*", a, num(coef(rng, "int"))) if rng.random() < 0.5 else ("*", num(rng.choice(["2", "3", "-1", "0.5", "-2.5"])), a)
+    r = rng.random()
+    if r < 0.3:
+        k = num(rng.choice(["2", "3", "-1", "-2", "0.5", "1.5", "10", "-0.25"]))
+        b = ("*", b, k) if rng.random() < 0.5 else ("*", k, b)
+    elif r < 0.4 and len(vocab) >= 3:
+        b = (rng.choice("+-"), b, ("fl", rng.choice([v for v in vocab if v not in (fa, fb)])))
+    elif r < 0.5:
+        b = num(rng.choice(["2", "-3", "0.5", "1", "0"]))            # (= (+ a 2) c): B is a number
+    if right == "fluent":
+        others = [v for v in vocab if v not in (fa, fb)] or [fb]
+        c = ("fl", rng.choice(others))
+        if rng.random() < 0.4:
+            c = ("*", c, num(rng.choice(["2", "-1", "3", "0.5"])))
+    else:
+        c = num(rng.choice(RIGHT_TEXTS[right]))
+    k = num(rng.choice(["2", "3", "-1", "5", "0.5", "-4"]))
+    op = {"add": "+", "sub": "-", "rev-add": "+", "rev-sub": "-"}.get(shape, "+")      # what joins A and B in the equality
+    if shape == "add":
+        eq = ("=", ("+", a, b), c)
+    elif shape == "sub":
+        eq = ("=", ("-", a, b), c)
+    elif shape == "rev-add":
+        eq = ("=", c, ("+", a, b))
+    elif shape == "rev-sub":
+        eq = ("=", c, ("-", a, b))
+    elif shape == "plain":                      # (= a b) / (= a 0) / (= a 5)
+        eq = ("=", a, b if right == "fluent" else c)
+    elif shape == "scaled":                     # (= (* 2 a) b)
+        eq = ("=", ("*", k, a) if rng.random() < 0.5 else ("*", a, k), b if right in ("fluent", "zero") else c)
+    elif shape == "num-first-add":              # (= (+ 2 a) c): the first operand of the sum is a NUMBER
+        eq = ("=", ("+", k, a), c if rng.random() < 0.6 else b)
+    elif shape == "num-first-sub":
+        eq = ("=", ("-", k, a), c if rng.random() < 0.6 else b)
+    elif shape == "mul-left":                   # (= (* (+ a b) 2) c): the sum is not at the top of the left side
+        op = rng.choice("+-")
+        eq = ("=", ("*", (op, a, b), k), c)
+    else:                                       # (= (- (- a b) b') c), (= (+ (- a b) b') c), (= (- (+ a b) b') c)
+        o1, op = rng.choice(["--", "+-", "-+"])
+        eq = ("=", (o1, (op, a, b), ("fl", rng.choice(vocab))), c)
+    return eq, a, b, shape, right, op
+
+
+def companion(rng, vocab, a, b, how=None, cmps=CMPS[:4], eq_op="+"):
+    """an inequality next to a shaped equality with first operand a and second operand b (joined there by eq_op)"""
+    how = how or rng.choice(EQ_COMPANIONS)
+    k = num(rng.choice(["2", "3", "-1", "5", "0.5", "-2", "1.5", "10"]))
+    fa = fluents_of(a)
+    rest = [v for v in vocab if v not in fa]
+    if how == "alone":
+        r = rng.random()
+        left = a if r < 0.25 else ("*", k, a) if r < 0.5 else ("*", a, k) if r < 0.7 else \
+            ("+", ("*", a, a), k) if r < 0.85 else ("*", a, ("fl", rng.choice(vocab)))
+    elif how in ("same-pattern", "other-pattern", "swapped"):
+        op = eq_op if how != "other-pattern" else ("-" if eq_op == "+" else "+")
+        core = (op, b, a) if how == "swapped" else (op, a, b)
+        r = rng.random()
+        left = core if r < 0.4 else ("*", core, k) if r < 0.6 else ("*", k, core) if r < 0.75 else \
+            ("+", core, ("fl", rng.choice(vocab))) if r < 0.9 else ("*", core, core)
+    elif how == "second-alone":
+        fb = fluents_of(b)
+        f = ("fl", rng.choice(fb)) if fb else a
+        left = f if rng.random() < 0.4 else ("*", f, k) if rng.random() < 0.6 else ("+", ("*", k, f), num("1"))
+    else:
+        if not rest:
+            return None
+        left = term(rng, rest, 2, "int")
+        if left[0] == "num":
+            left = ("fl", rng.choice(rest))
+    r = rng.random()
+    right = num(rng.choice(["0", "4", "1", "-2", "2.5", "10", "100", "0.5"])) if r < 0.75 else term(rng, vocab, 1, "int")
+    return (rng.choice(cmps), left, right), how
+
+
+# the style of the numeric preconditions of the shipped domains: resource bounds, comparisons of two fluents, sums of weighted
+# fluents against a capacity
+def domain_style(rng, vocab):
+    f = lambda: ("fl", rng.choice(vocab))
+    r = rng.random()
+    n = lambda: num(rng.choice(["0", "1", "2", "5", "10", "100", "0.5", "8", "20", "50"]))
+    if r < 0.2:
+        return (rng.choice([">=", ">", "<=", "<"]), f(), n())
+    if r < 0.4:
+        return (rng.choice([">=", "<="]), f(), f())
+    if r < 0.55:
+        return (">=", ("-", f(), f()), n())
+    if r < 0.7:
+        return ("<=", ("+", f(), f()), f() if rng.random() < 0.6 else n())
+    if r < 0.85:
+        return (rng.choice([">=", "<="]), f(), ("*", f(), n()) if rng.random() < 0.5 else ("*", n(), f()))
+    return (">=", ("-", f(), ("*", f(), f())), n())
+
+
+def shape_case(rng, vocab, shape=None, right=None, how=None):
+    """one conjunction: a shaped equality + 1-2 companions (+ sometimes a domain-style condition); None when the vocabulary
+    is too small for the companion asked for"""
+    eq, a, b, shape, right, op = shaped_equality(rng, vocab, shape, right)
+    comp = companion(rng, vocab, a, b, how, eq_op=op)
+    if comp is None:
+        return None
+    conds = [eq, comp[0]]
+    hows = [comp[1]]
+    if rng.random() < 0.35:
+        c2 = companion(rng, vocab, a, b, eq_op=op)
+        if c2 is not None:
+            conds.append(c2[0])
+            hows.append(c2[1])
+    if rng.random() < 0.25:
+        conds.append(domain_style(rng, vocab))
+    return conds, shape, right, hows
+
+
 def rand_point(rng, fluents):
     return {f: Fraction(rng.randint(-40, 40), rng.choice([1, 1, 2, 3, 4, 7])) for f in fluents}
 
